@@ -19,14 +19,16 @@ __CPROVER_ensures(__CPROVER_return_value == s)
 __CPROVER_ensures(g_memset_k < n ==> C14_UC(s, g_memset_k) == (unsigned char)c);
 
 /* ------------------------------------------------------------------ strlen (ISO 7.24.6.3)
- * g_strlen_L: witness of "s is a string": s[0..L] readable and s[L] == 0 (earlier NULs allowed). */
-size_t g_strlen_L; /* in */
-size_t g_strlen_k; /* in: ghost index */
+ * The caller names the length: g_strlen_L with s[L] == 0 and no NUL before L.  "No NUL before L" is universally
+ * quantified, so it is a precondition stated at the ghost index g_strlen_k: a caller only verifies if it holds at
+ * every value of the index its harness leaves free, i.e. if the claim is true; then the result is L. */
+size_t g_strlen_L; /* in: the length of s */
+size_t g_strlen_k; /* in: ghost index of the claim "no NUL before L" */
 size_t strlen(const char *s)
-__CPROVER_requires(g_strlen_L < ((size_t)1 << 40) && __CPROVER_r_ok(s, g_strlen_L + 1) && s[g_strlen_L] == 0)
+__CPROVER_requires(g_strlen_L < ((size_t)1 << 40) && __CPROVER_r_ok(s, g_strlen_L + 1) && s[g_strlen_L] == 0 &&
+                   (g_strlen_k < g_strlen_L ==> s[g_strlen_k] != 0))
 __CPROVER_assigns()
-__CPROVER_ensures(__CPROVER_return_value <= g_strlen_L && s[__CPROVER_return_value] == 0 &&
-                  (g_strlen_k < __CPROVER_return_value ==> s[g_strlen_k] != 0));
+__CPROVER_ensures(__CPROVER_return_value == g_strlen_L);
 
 /* ------------------------------------------------------------------ memcpy (ISO 7.24.2.1)
  * n bytes of dst must be writable, n bytes of src readable, no overlap; g_memcpy_v: the caller's record of src[g_memcpy_k]. */
